@@ -220,6 +220,9 @@ func init() {
 		case "Blocked":
 			id := p.intArg(a[0])
 			return p.tt.Bool(p.threads[id].state == stBlocked), true
+		case "TimedSleep":
+			p.timedSleep = a[0].(*Term).val != 0
+			return nil, true
 		case "HTTPServeCalls":
 			return p.i64(int64(p.httpServeCalls)), true
 		case "EagerOffsets":
